@@ -213,6 +213,14 @@ func instantiate(entries []PCEntry, goal *Term) (extra []string, goalText string
 					}
 				}
 				txt := replaceToken(body.s, v, inst)
+				if strings.Contains(txt, "(exists ") {
+					// an instance that asserts an existential (". . . is a piece of some old entry"):
+					// name the witness, so that its element reads become ground terms too
+					it := substTree(body, v, inst)
+					var decls []string
+					txt = skolemisePositive(it, true, &n, &decls, reads)
+					extra = append(extra, decls...)
+				}
 				if h.guard != nil {
 					txt = "(=> " + h.guard.s + " " + txt + ")"
 				}
@@ -223,6 +231,63 @@ func instantiate(entries []PCEntry, goal *Term) (extra []string, goalText string
 				extra = append(extra, "(assert "+txt+")")
 				cnt++
 				total++
+				// a universally quantified consequent of the instance (forall i. forall j. P, as in
+				// "no two entries are equal") is instantiated once more, for the same index terms
+				if strings.Contains(txt, "(forall ") {
+					nt := substTree(body, v, inst)
+					var inner []qhyp
+					collectHyps(nt, nil, &inner)
+					for _, ih := range inner {
+						iv := ih.q.qvars[0][0]
+						ibody := ih.q.args[0]
+						ipats := map[string]string{}
+						indexPatterns(ibody, iv, ipats)
+						var ikeys []string
+						for k := range ipats {
+							ikeys = append(ikeys, k)
+						}
+						sortStrings(ikeys)
+						icnt := 0
+						for _, ik := range ikeys {
+							ioff := ipats[ik]
+							iarr := ik[:strings.Index(ik, "\x00")]
+							var iidxs []string
+							for idx2 := range reads[iarr] {
+								iidxs = append(iidxs, idx2)
+							}
+							sortStrings(iidxs)
+							for _, idx2 := range iidxs {
+								if icnt >= 12 || total >= maxInstTotal {
+									break
+								}
+								inst2 := idx2
+								if ioff != "" {
+									if idx2 == ioff {
+										inst2 = "0"
+									} else if strings.HasPrefix(idx2, "(+ "+ioff+" ") && strings.HasSuffix(idx2, ")") {
+										inst2 = idx2[len("(+ "+ioff+" ") : len(idx2)-1]
+									} else {
+										inst2 = "(- " + idx2 + " " + ioff + ")"
+									}
+								}
+								t2 := replaceToken(ibody.s, iv, inst2)
+								if ih.guard != nil {
+									t2 = "(=> " + ih.guard.s + " " + t2 + ")"
+								}
+								if h.guard != nil {
+									t2 = "(=> " + h.guard.s + " " + t2 + ")"
+								}
+								if seen[t2] {
+									continue
+								}
+								seen[t2] = true
+								extra = append(extra, "(assert "+t2+")")
+								icnt++
+								total++
+							}
+						}
+					}
+				}
 			}
 		}
 	}
@@ -297,4 +362,42 @@ func instantiate(entries []PCEntry, goal *Term) (extra []string, goalText string
 		}
 	}
 	return extra, goalText
+}
+
+// skolemisePositive rewrites existential subformulas in positive position (under and / or / the
+// consequent of =>) of an asserted formula to their body with a fresh constant for the bound
+// variable; the ground element reads of the new body are added to reads. Equisatisfiable.
+func skolemisePositive(t *Term, positive bool, n *int, decls *[]string, reads map[string]map[string]bool) string {
+	if t == nil {
+		return ""
+	}
+	if !positive || !strings.Contains(t.s, "(exists ") {
+		return t.s
+	}
+	switch t.op {
+	case "exists":
+		if len(t.qvars) == 1 && len(t.args) == 1 {
+			*n++
+			sk := fmt.Sprintf("sk!%d!%s", *n, strings.ReplaceAll(t.qvars[0][0], "!", "_"))
+			*decls = append(*decls, "(declare-const "+sk+" "+t.qvars[0][1]+")")
+			body := substTree(t.args[0], t.qvars[0][0], sk)
+			groundReads(body, reads)
+			return skolemisePositive(body, true, n, decls, reads)
+		}
+		return t.s
+	case "and", "or":
+		var b strings.Builder
+		b.WriteString("(" + t.op)
+		for _, a := range t.args {
+			b.WriteByte(' ')
+			b.WriteString(skolemisePositive(a, true, n, decls, reads))
+		}
+		b.WriteByte(')')
+		return b.String()
+	case "=>":
+		if len(t.args) == 2 {
+			return "(=> " + t.args[0].s + " " + skolemisePositive(t.args[1], true, n, decls, reads) + ")"
+		}
+	}
+	return t.s
 }
